@@ -99,6 +99,12 @@ LAYERED_SOILS = {
     # permeable top over an impeding subsoil on a non-uniform grid (back-up of drainage across compartments of different thickness)
     "impeding_uneven": {"type": "custom", "kw": {"dz": [0.05, 0.05, 0.1, 0.1, 0.2, 0.2, 0.3, 0.3]},
                         "layers": [[0.3, 0.06, 0.13, 0.36, 1500.0, 100], [1.0, 0.39, 0.54, 0.55, 2.0, 100]]},
+    # coarse top over fine subsoil (contrasting saturation / field capacity between layers), uniform grid
+    "sand_over_clay": {"type": "custom", "kw": {"dz": [0.1] * 12},
+                       "layers": [[0.3, 0.06, 0.13, 0.36, 3000.0, 100], [0.9, 0.39, 0.54, 0.55, 35.0, 100]]},
+    # layers declared only for the upper part of the grid: compartments below inherit the last layer
+    "shallow_layers": {"type": "custom", "kw": {"dz": [0.1] * 14},
+                       "layers": [[0.3, 0.10, 0.22, 0.41, 1200.0, 100], [0.4, 0.23, 0.39, 0.50, 125.0, 100]]},
     "uneven_dz": {"type": "custom", "kw": {"dz": [0.05, 0.05, 0.1, 0.1, 0.15, 0.15, 0.2, 0.2, 0.2, 0.2]},
                   "layers": [[1.4, 0.15, 0.31, 0.46, 500.0, 100]]},
 }
@@ -265,6 +271,18 @@ def hard_cases(rnd, n=None, year=2001):
         S("MaizeGDD", "SandyLoam", seed=rnd.randrange(10 ** 6), regime="hot", seasons=2, lead=12, irr={"method": 1, "kw": {"SMT": [70, 70, 70, 0]}}, iwc={"wc_type": "Pct", "value": [40]}),
         S("Cotton", "SiltLoam", seed=rnd.randrange(10 ** 6), regime="hot", irr={"method": 1, "kw": {"SMT": [80] * 4, "AppEff": 70, "MaxIrr": 12}}),
         S("Barley", "Clay", seed=rnd.randrange(10 ** 6), plant_md=(12, 20), year=year - 1, seasons=2, harvest_date="03/10", off_season=True),
+    ]
+    cases += [
+        # net irrigation on contrasting layers with roots in the second layer
+        S("Wheat", seed=rnd.randrange(10 ** 6), soil_spec=LAYERED_SOILS["sand_over_clay"], irr={"method": 4, "kw": {"NetIrrSMT": 90}}, seasons=2,
+          iwc={"value": ["WP", "WP"], "depth_layer": [1, 2]}, regime="arid"),
+        # ponded field whose pond is dried out by evaporation, with mulches / partially wetting irrigation
+        S("PaddyRice", "Paddy", seed=rnd.randrange(10 ** 6), regime="warm", field={"bunds": True, "z_bund": 0.1, "mulches": True, "mulch_pct": 80, "f_mulch": 0.7},
+          iwc={"value": ["FC", "FC"], "depth_layer": [1, 2]}, seasons=2, off_season=True),
+        S("Tomato", "Paddy", seed=rnd.randrange(10 ** 6), regime="warm", field={"bunds": True, "z_bund": 0.08}, irr={"method": 2, "kw": {"IrrInterval": 7, "WetSurf": 30, "AppEff": 75}},
+          iwc={"value": ["FC", "FC"], "depth_layer": [1, 2]}),
+        S("Quinoa", seed=rnd.randrange(10 ** 6), soil_spec=LAYERED_SOILS["shallow_layers"], iwc={"value": ["FC", "WP"], "depth_layer": [1, 2]}, irr={"method": 1, "kw": {"SMT": [60] * 4, "WetSurf": 40}},
+          field={"mulches": True, "mulch_pct": 50, "f_mulch": 0.5}),
     ]
     rnd.shuffle(cases)
     return cases if n is None else cases[:n]
